@@ -48,16 +48,22 @@ def run(ck, prog):
     api = read_only_api(prog)
     ck.count("read-only API methods", len(api))
     ck.floor("read-only API methods", len(api), 41)
-    _eff(ck, prog, E, api)
-    _who_may_write(ck, prog, E)
-    _memo(ck, prog, E)
-    _alias(ck, prog, E, api)
-    _mdef(ck, prog, E, api)
-    _fresh_ctors(ck, prog)
-    _positive_control(ck)
+    from props.common import check_memos
+    ck.attempt(check_memos, ck, prog, scope=_reachable(E, {f.key for f in api}), E=E)
+    for step, args in ((_who_may_write, (ck, prog, E)), (_memo, (ck, prog, E)), (_alias, (ck, prog, E, api)), (_mdef, (ck, prog, E, api)),
+                       (_fresh_ctors, (ck, prog)), (_eff, (ck, prog, E, api)), (_positive_control, (ck,))):
+        ck.attempt(step, *args)
 
 
 def _eff(ck, prog, E, api):
+    from lcsa import memo
+    memo_res = memo.analyse(prog, E)
+    sound_tables = {}
+    for r in memo_res:
+        s0 = r["site"]
+        if s0.scope == "object":
+            sound_tables.setdefault((s0.cls, s0.table), []).append(r["verdict"])
+    undecided_tables = set()
     for f in api:
         s = E.sum[f.key]
         construct = f.mod.relpath + ":" + f.qual
@@ -65,6 +71,16 @@ def _eff(ck, prog, E, api):
         for path, kinds in s.self_writes.items():
             parts = path.split(".")
             if parts[0] == "SeqObj" and len(parts) >= 2 and parts[1] in MEMO and len(parts) == 2:
+                continue
+            if parts[0] == "SeqObj" and len(parts) >= 2 and parts[1] not in WRITERS:
+                # a field the analysis has no writer table for: a new memo table.  Judged by MEMO-KEY, not by the writer table
+                v = sound_tables.get(("Sequence", parts[1]))
+                if v and all(x == "ok" for x in v):
+                    continue
+                if v and any(x == "violation" for x in v):
+                    bad[path] = sorted(kinds) + ["memo key incomplete"]
+                    continue
+                undecided_tables.add(parts[1])
                 continue
             bad[path] = sorted(kinds)
         sites = {p: [w for w in s.write_sites.get(p, [])][:3] for p in bad}
@@ -76,6 +92,8 @@ def _eff(ck, prog, E, api):
         pm = {p: w for p, w in s.param_muts.items() if not (f.name == "get_linear_sequence_composition" and p == "grps")}
         ck.ob("EFF-arguments", construct, not pm, expected="no caller-supplied argument mutated", found={p: w[:2] for p, w in pm.items()},
               slot="arguments", where=f.loc())
+    if undecided_tables:
+        raise Undecided("read-only queries write new field(s) %s whose memo discipline lcsa cannot judge" % sorted(undecided_tables))
     # unresolved self-calls would hide effects
     unresolved = sorted({u for f in api for u in E.sum[f.key].unresolved})
     ck.ob("EFF-resolution", "localcider/sequenceParameters.py:SequenceParameters", not unresolved, expected="every self.* call resolved",
@@ -339,9 +357,14 @@ def _alias(ck, prog, E, api):
     for n in ast.walk(f.node):
         if isinstance(n, ast.Assign) and is_self_attr(n.targets[0]):
             kinds.setdefault(n.targets[0].attr, []).append(unparse(n.value))
-    ok = all(v.endswith(".upper()") for v in kinds.get("seq", ["?"])) and all(v.startswith("len(") for v in kinds.get("len", ["?"])) \
+    def strish(v):
+        return v.endswith(".upper()") or v.endswith(".lower()") or v.startswith(("str(", "self.validateSequence(", "''.join(", '"".join(')) or v == "seq"
+    ok = all(strish(v) for v in kinds.get("seq", ["?"])) and all(v.startswith("len(") for v in kinds.get("len", ["?"])) \
         and kinds.get("seqDeltaMax") == ["None"]
-    ck.ob("ALIAS", SEQ_PATH + ":Sequence.__init__", ok, expected="seq is a str (.upper()), len an int (len()), seqDeltaMax starts as None",
+    if not ok:
+        # cannot tell the types any more: undecided, never a verdict (the rule above relies on seq/len/seqDeltaMax being immutable values)
+        raise Undecided("constructor assigns seq/len/seqDeltaMax in a form whose type lcsa does not recognise: %s" % {k: kinds.get(k) for k in ("seq", "len", "seqDeltaMax")})
+    ck.ob("ALIAS", SEQ_PATH + ":Sequence.__init__", ok, expected="seq is a str, len an int (len()), seqDeltaMax starts as None",
           found={k: kinds.get(k) for k in ("seq", "len", "seqDeltaMax")}, slot="immutable-valued-fields", where=f.loc())
 
 
